@@ -37,6 +37,18 @@ def _worker(job):
         return job, None, traceback.format_exc()
 
 
+def _worker_send(job, conn):
+    try:
+        conn.send(_worker(job))
+    except BaseException:
+        try:
+            conn.send((dict(harness=job["harness"], params=job["params"], roots=job.get("roots")), None, traceback.format_exc()))
+        except BaseException:
+            pass
+    finally:
+        conn.close()
+
+
 def job_key(job):
     return json.dumps([job["harness"], job["params"]], sort_keys=True)
 
@@ -56,53 +68,86 @@ def run_jobs(jobs, nproc=None, deadline=None, chunk=300, known=(), xval=2, timeo
                  labels=None if labels is None else sorted(labels), second_solver_every=second_solver_every)
         pending.append(j)
     timed_out = False
-    inflight = 0
-    done_q = []
-    with ctx.Pool(nproc, maxtasksperchild=1) as pool:  # fresh z3 context per job: reproducible solver behaviour
-        def submit(j):
-            nonlocal inflight
-            inflight += 1
-            pool.apply_async(_worker, (j,), callback=done_q.append, error_callback=lambda e: done_q.append((j, None, repr(e))))
-        while pending or inflight:
-            while pending and inflight < nproc * 2:
-                submit(pending.pop())
-            if not done_q:
+    # One forked process per job, managed directly (multiprocessing.Pool with maxtasksperchild=1 lost tasks under load:
+    # idle workers, tasks still 'in flight', the check then waited for its time limit).  A fresh process per job also
+    # gives every job a fresh z3 context (reproducible solver behaviour).
+    running = {}   # pid -> (process, parent_conn, job, t_start)
+
+    def launch(j):
+        pc, cc = ctx.Pipe(duplex=False)
+        pr = ctx.Process(target=_worker_send, args=(j, cc), daemon=True)
+        pr.start()
+        cc.close()
+        running[pr.pid] = (pr, pc, j, time.time())
+
+    def handle(job, r, err):
+        nonlocal timed_out
+        k = job_key(job)
+        if err is not None:
+            errors.append(dict(job=dict(harness=job["harness"], params=job["params"]), error=err))
+            return
+        left = r.pop("leftover")
+        base = results.get(k)
+        if base is None:
+            results[k] = r
+            r["job"] = dict(harness=job["harness"], params=job["params"])
+        else:
+            merge(base, r)
+        if left:
+            if deadline and time.time() > deadline:
+                timed_out = True
+                results[k]["exhausted"] = False
+                return
+            # split the remaining prefixes over new jobs (later paths get no extra xval)
+            nsplit = max(1, min(len(left), nproc))
+            for i in range(nsplit):
+                part = left[i::nsplit]
+                if part:
+                    nj = dict(job)
+                    nj["roots"] = part
+                    nj["xval"] = 1 if xval else 0
+                    pending.append(nj)
+
+    try:
+        while pending or running:
+            while pending and len(running) < nproc:
+                launch(pending.pop())
+            progressed = False
+            for pid, (pr, pc, job, t0_) in list(running.items()):
+                got = None
+                try:
+                    if pc.poll(0):
+                        got = pc.recv()
+                except (EOFError, OSError):
+                    got = (job, None, f"worker {pid} closed its pipe without a result (exit code {pr.exitcode})")
+                if got is None and not pr.is_alive():
+                    # the process ended; a result may still be buffered in the pipe
+                    try:
+                        got = pc.recv() if pc.poll(0.2) else (job, None, f"worker {pid} died without a result (exit code {pr.exitcode})")
+                    except (EOFError, OSError):
+                        got = (job, None, f"worker {pid} died without a result (exit code {pr.exitcode})")
+                if got is not None:
+                    progressed = True
+                    del running[pid]
+                    pc.close()
+                    pr.join(5)
+                    handle(job, got[1], got[2])
+                    if progress:
+                        progress(results)
+            if deadline and time.time() > deadline + 30:
+                timed_out = True
+                if os.environ.get("VERIF_DEBUG"):
+                    for (_, _, j_, _) in running.values():
+                        print("STILL RUNNING:", j_["harness"], json.dumps(j_["params"])[:300], "roots", len(j_["roots"]), flush=True)
+                break
+            if not progressed:
                 time.sleep(0.01)
-                if deadline and time.time() > deadline + 30:
-                    timed_out = True
-                    break
-                continue
-            job, r, err = done_q.pop()
-            inflight -= 1
-            k = job_key(job)
-            if err is not None:
-                errors.append(dict(job=dict(harness=job["harness"], params=job["params"]), error=err))
-                continue
-            left = r.pop("leftover")
-            base = results.get(k)
-            if base is None:
-                results[k] = r
-                r["job"] = dict(harness=job["harness"], params=job["params"])
-            else:
-                merge(base, r)
-            if left:
-                if deadline and time.time() > deadline:
-                    timed_out = True
-                    results[k]["exhausted"] = False
-                    continue
-                # split the remaining prefixes over new jobs (later paths get no extra xval)
-                nsplit = max(1, min(len(left), nproc))
-                for i in range(nsplit):
-                    part = left[i::nsplit]
-                    if part:
-                        nj = dict(job)
-                        nj["roots"] = part
-                        nj["xval"] = 1 if xval else 0
-                        pending.append(nj)
-            if progress:
-                progress(results)
-        if timed_out:
-            pool.terminate()
+    finally:
+        for pid, (pr, pc, job, t0_) in list(running.items()):
+            pr.terminate()
+            pr.join(2)
+            if pr.is_alive():
+                pr.kill()
     for k, r in results.items():
         r["exhausted"] = not timed_out
     return results, errors, timed_out
